@@ -646,7 +646,7 @@ def module_path_complete(ctx: Ctx, rule: str) -> int:
     from ..absint import Evaluator, Const, Obj, NOT_HANDLED
     rep = ctx.report
     prog = ctx.prog
-    cands = [f for f in prog.funcs.values() if f.module.name == "dds._retrieve_objects" and f.cls is None and len(f.positional_params()) == 1
+    cands = [f for f in prog.funcs.values() if f.module.name.startswith("dds") and not f.module.name.startswith("dds_tests") and f.cls is None and len(f.positional_params()) == 1
              and any(isinstance(y, ast.Attribute) and y.attr == "__name__" for y in f.own_nodes())
              and any(isinstance(y, ast.Call) and unparse(y.func).endswith("from_list") for y in f.own_nodes())]
     n = 0
